@@ -288,7 +288,7 @@ func (tf *tagFilter) InfluxRegrep() (regexpCacheValue, error) {
 	var expr []byte
 	prefix := tf.value
 	if tf.isRegexp {
-		prefix, expr = getRegexpPrefix(tf.value)
+		prefix, expr = getInfluxRegexpPrefix(tf.value)
 		if len(expr) == 0 {
 			tf.value = append(tf.value[:0], prefix...)
 			tf.valueIsLiteral = true
@@ -309,6 +309,36 @@ func (tf *tagFilter) InfluxRegrep() (regexpCacheValue, error) {
 	}
 	rcv, err := getRegexpFromCache(expr)
 	return rcv, err
+}
+
+// getInfluxRegexpPrefix splits an InfluxQL regular expression, which may match ANYWHERE in the tag value, into
+// a literal prefix of the value and an expression for the rest. The prefix, the or-values and the optimized
+// matchers derived from that rest (getRegexpFromCache) stem from anchored matching; getRegexpPrefix keeps the
+// meaning of the expression for a pure literal (matched with bytes.Contains), for /^literal/ (prefix + .*),
+// /literal$/ (.*literal$), /.*/ and /.+/ only. Any other expression E is matched as it was written against the
+// whole value: .*(E).* must match all of it, which is the same for every way of matching.
+func getInfluxRegexpPrefix(b []byte) ([]byte, []byte) {
+	if keepsUnanchoredMeaning(b) {
+		return getRegexpPrefix(b)
+	}
+	return nil, []byte("(?s:.*)(?:" + string(b) + ")(?s:.*)")
+}
+
+func keepsUnanchoredMeaning(b []byte) bool {
+	sre, err := syntax.Parse(string(b), syntax.Perl)
+	if err != nil {
+		return true
+	}
+	sre = sre.Simplify()
+	if sre.Op == syntax.OpEmptyMatch || isLiteral(sre) || isDotStar(sre) || isDotPlus(sre) {
+		return true
+	}
+	if sre.Op != syntax.OpConcat || len(sre.Sub) != 2 {
+		return false
+	}
+	plain := func(r *syntax.Regexp) bool { return r.Op == syntax.OpLiteral && r.Flags&syntax.FoldCase == 0 }
+	return sre.Sub[0].Op == syntax.OpBeginText && plain(sre.Sub[1]) ||
+		plain(sre.Sub[0]) && sre.Sub[1].Op == syntax.OpEndText
 }
 
 func (tf *tagFilter) OpGeminiRegrep() (*regexpCacheValue, error) {
